@@ -657,6 +657,27 @@ P("cummax_series_nulls", lambda t: t.df.b.cummax())
 P("cumprod_series_nulls_noskip", lambda t: t.df.b.cumsum(skipna=False))
 
 
+def _unnamed_rolling_plus(df, other):
+    out = df["u"].rolling(2).sum() + other["w"]
+    out.name = None  # the user function does not care about the name: run-time enforcement has to apply the declared one
+    return out
+
+
+def _double_unnamed(p):
+    return (p.u * 2.0).rename(None)
+
+
+def _renamed_cols(p):
+    return p[["u", "a"]].rename(columns={"u": "U", "a": "A"})
+
+
+# user functions with a declared meta and the default enforce_metadata=True: partitions must carry the declared labels
+P("enforce_map_partitions_name", lambda t: t.df.map_partitions(_double_unnamed, meta=("res", "f8")) if t.lazy else _double_unnamed(t.df).rename("res"), tags={"enforce_meta"})
+P("enforce_map_partitions_columns", lambda t: t.df.map_partitions(_renamed_cols, meta={"x": "i8", "y": "i8"}) if t.lazy else _renamed_cols(t.df).set_axis(["x", "y"], axis=1), tags={"enforce_meta"})
+P("enforce_map_overlap_align_name", lambda t: t.df.map_overlap(_unnamed_rolling_plus, 1, 0, t.df2, align_dataframes=True, meta=("res", "f8"), transform_divisions=False) if t.lazy else t.df.u, dask_only=True, needs_known=True, needs_range=True, tags={"enforce_meta", "window"})
+P("enforce_map_overlap_align_name_default", lambda t: t.df.map_overlap(_unnamed_rolling_plus, 1, 0, t.df2, align_dataframes=True, meta=("res", "f8")) if t.lazy else t.df.u, dask_only=True, needs_known=True, needs_range=True, tags={"enforce_meta", "window"})
+
+
 def program_names(tags_exclude=()):
     return [n for n, p in PROGRAMS.items() if not (p.tags & set(tags_exclude))]
 
